@@ -6,13 +6,36 @@ applies each write packet to its image, acknowledging with the address it receiv
 The contract does not prescribe the library's chunk sizes: it answers whatever is asked and checks the protocol
 limits (<= 30 payload bytes per message, a read chunk must fit one reply: <= 24 bytes) and the end result.
 
-Lengths are enumerated around the chunk boundaries of both directions (bounded, stated per contract); addresses, memory
-ids and contents are symbolic.  The per-step functions `_ReadRequest.add_data` and `_WriteRequest._write_new_chunk /
-write_done` are additionally proved for data of ANY length (z3 sequences) in the `step.*` contracts.
+Lengths of whole transfers are enumerated around the chunk boundaries of both directions (bounded, stated per contract);
+addresses, memory ids and contents are symbolic.  For transfers of ANY length the induction over the chunks is closed by the
+`step.*` contracts (data = window of an SMT array of symbolic length): base case `step.read.start` / `step.write.start`
+(Memory.read / Memory.write establish the request state), request-level step `step.read.add_data` / `step.write.write_done`,
+handler-level step `step.read.handler` / `step.write.handler` (notification raised and record removed exactly at the last chunk,
+next queued write started).
+
+Histories with several requests: flush_queue (write.flush.*: only the WAITING writes are superseded, the write in flight
+completes), two memories with interleaved replies, read + write of one memory, link drop with five requests pending
+(drop.every-pending-request-fails-once, incl. late replies of the old connection and re-use afterwards), unsolicited replies,
+retransmission of the chunk in flight (read.resend / write.resend).
+Timing: read.reply-before-send-returns.* delivers the first reply from INSIDE cf.send_packet (explicit schedule through an
+effectful stub: the receiving thread is faster than the caller of Memory.read).
+Objects requests are made through: enumeration.* (Memory.refresh ... get_mem / get_mems), tester.* (MemoryTester end to end
+through the real Memory), deck.* (DeckMemory / DeckMemoryManager: address mapping, completion, blocking wrappers with the
+completion delivered while the caller waits, command writes, disconnect, end to end through the real Memory).
+
+Contracts under `thorough_only=True` that FAIL on the unchanged tree (each replays natively; reported to the maintainer of this
+directory, not "fixed" here): tester.read.len0, tester.read.error-then-next-served, tester.read.validated-before-reported,
+deck.write-notification-names-the-request, deck.query-failure-notified, enumeration.second-refresh-then-deck-read,
+invalid-request.leaves-nothing-behind.
 
 Assumed: a duplicated acknowledgement never carries the start address of the *next* queued write to the same memory
 (the protocol has no sequence numbers; such an acknowledgement is indistinguishable from a genuine one).
-Not covered: requests issued concurrently from several threads (interleavings).
+Not covered: pre-emption between two statements of one function (two threads inside Memory.read of the same memory between
+the busy check and the registration; Memory.write racing _call_all_failed_callbacks).  The lock model is sequential: a second
+thread that has to WAIT for the write lock cannot be expressed (it is the pseudo exception Deadlock), so for writes the schedule
+"acknowledgement handled before Memory.write has released the lock" is not explored separately - the lock itself makes it
+equivalent to the sequential order the write.* histories run.  Not covered either: 1-wire memories (Memory.ow_search,
+Memory._mem_update_done: header / element parsing of OWElement belongs to the 1-wire property), the other typed memories.
 """
 from pyvc.api import contract
 
@@ -26,8 +49,8 @@ WRITE_F = [MEM + ':Memory.write', MEM + ':Memory._new_packet_cb', MEM + ':Memory
            MEM + ':_WriteRequest._write_new_chunk', MEM + ':_WriteRequest.write_done']
 
 
-def setup(c):
-    cf = c.ext('cf')
+def setup(c, cf_returns=None):
+    cf = c.ext('cf', returns=cf_returns or {})
     memh = c.new(MEM + ':Memory', cf)
     c.let('memh', memh)
     for nm in ('mem_read_cb', 'mem_read_failed_cb', 'mem_write_cb', 'mem_write_failed_cb'):
@@ -47,12 +70,13 @@ def refresh(c):
     c.snapshot('trace_now', "sent('cf.send_packet')")
 
 
-def reply(c, memh, channel, head_expr, status, tail_expr='b""'):
-    """deliver a device packet on the MEM port: data = head (id + address) + status + tail"""
+def reply(c, memh, channel, head_expr, status, tail_expr='b""', tag=''):
+    """deliver a device packet on the MEM port: data = head (id + address) + status + tail
+    (tag: makes the obligation name unique when a history delivers several replies - replay and concordance match by name)"""
     c.snapshot('rdata', "bytes(%s) + bytes([%d]) + bytes(%s)" % (head_expr, status, tail_expr))
     pk = c.new(STK + ':CRTPPacket', (4 << 4) | channel, c.get('rdata'))
     c.call((memh, '_new_packet_cb'), pk)
-    c.ensure('reply-handled-without-exception', 'raised is None')
+    c.ensure('reply-handled-without-exception' + tag, 'raised is None')
     c.snapshot('trace', 'trace')   # keep name bound
 
 
@@ -521,3 +545,1349 @@ def deck_write_completion(c):
     c.reset_trace()
     c.call((dm, 'write'), c.get('address'), wdata, ok, bad)
     c.ensure('next-write-served', "raised is None and len(sent('memh.write')) == 1")
+
+
+# --------------------------------------------------------------------------------------- several writes in one history (general device model)
+
+def serve_writes(c, memh, regions, faults=None, max_steps=10, mid_expr='mid', after_ack=None):
+    """Device model for a history of several writes to ONE memory: every write packet the library transmits is checked
+    against the protocol limits, attributed to the request whose address range [addr_k, addr_k + L_k) it falls in
+    (`regions` = [(name of the start address, L)], the ranges are disjoint by construction: k * 2000 + [0, 1000]),
+    applied to the device image of that request and acknowledged.  `faults` maps a 0-based step to an error status.
+    Returns (order, images): the request index per transmitted packet, and per request offset -> name of the byte value."""
+    faults = faults or {}
+    order, images = [], [dict() for _ in regions]
+    for step in range(max_steps):
+        refresh(c)
+        if n_requests(c) != step + 1:
+            break
+        c.snapshot('wq', 'trace_now[-1][1][0]')
+        tag = '@%d' % step
+        c.ensure('packet-on-mem-write-channel' + tag, 'wq.port == 4 and wq.channel == 2 and len(wq.data) >= 5 and wq.data[0] == %s' % mid_expr)
+        c.ensure('message-within-30-bytes' + tag, 'len(wq.data) <= 30')
+        k = c.concretize("unpack('<I', bytes(wq.data[1:5]))[0] // 2000", limit=8)
+        if not 0 <= k < len(regions):
+            c.ensure('packet-belongs-to-a-request' + tag, 'False')
+            break
+        order.append(k)
+        an, L = regions[k]
+        off = c.concretize("unpack('<I', bytes(wq.data[1:5]))[0] - %s" % an)
+        n = c.concretize('len(wq.data)') - 5
+        c.let('woff', off)
+        c.ensure('write-inside-range' + tag, '0 <= woff and woff + %d <= %d' % (n, L))
+        for i in range(n):
+            nm = 'img%d_%d_%d' % (k, off + i, step)
+            c.snapshot(nm, 'wq.data[%d]' % (5 + i))
+            images[k][off + i] = nm
+        reply(c, memh, 2, 'wq.data[0:5]', faults.get(step, 0), tag=tag)
+        if after_ack is not None:
+            after_ack(step)
+    c.snapshot('trace', 'trace')
+    return order, images
+
+
+def image_equals(image, L, dname):
+    return 'True' if L == 0 else ' and '.join('%s == %s[%d]' % (image.get(i, 'None'), dname, i) for i in range(L))
+
+
+def note_addrs(c, name):
+    return "tuple(e[1][1] for e in sent('%s'))" % name
+
+
+def _flush(scenario):
+    @contract('C06', 'write.flush.%s' % scenario, WRITE_F,
+              clause='every write request that is not explicitly superseded completes with exactly one notification and queued writes are performed in '
+                     'order: write(..., flush_queue=True) supersedes only the writes still WAITING in the queue of that memory; the write in flight is '
+                     'completed (all its chunks reach the device, one notification) and the new write is performed right after it',
+              bounded='writes of 30 (two chunks), 3 and 4 bytes to one memory; addresses, memory id and contents symbolic')
+    def k(c):
+        memh, mem = setup(c)
+        c.int('addr', 0, 1000), c.int('addr2', 2000, 3000), c.int('addr3', 4000, 5000)
+        d1 = c.ints('d1', 30, 0, 255, kind='tuple')
+        d2 = c.ints('d2', 3, 0, 255, kind='tuple')
+        d3 = c.ints('d3', 4, 0, 255, kind='tuple')
+        regions = [('addr', 30), ('addr2', 3), ('addr3', 4)]
+        faults = {}
+        if scenario in ('inflight', 'inflight+queued', 'inflight-fails', 'after-first-chunk'):
+            c.call((memh, 'write'), mem, c.get('addr'), d1)
+            c.require('raised is None')
+        if scenario == 'inflight+queued':
+            c.call((memh, 'write'), mem, c.get('addr2'), d2)
+            c.require('raised is None')
+        if scenario == 'idle-again':
+            # an earlier write has completed: the queue of this memory exists and is empty
+            c.call((memh, 'write'), mem, c.get('addr2'), d2)
+            c.require('raised is None')
+            refresh(c)
+            c.snapshot('wq', 'trace_now[-1][1][0]')
+            reply(c, memh, 2, 'wq.data[0:5]', 0, tag='@first')
+            c.reset_trace()
+        if scenario == 'inflight-fails':
+            faults = {0: 6}
+        if scenario == 'after-first-chunk':
+            # the flushing write arrives between the two chunks of the write in flight
+            def flush_now(step):
+                if step == 0:
+                    c.call((memh, 'write'), mem, c.get('addr3'), d3, True)
+                    c.ensure('flushing-write-accepted', 'raised is None and result is True')
+            order, images = serve_writes(c, memh, regions, faults, after_ack=flush_now)
+        else:
+            c.call((memh, 'write'), mem, c.get('addr3'), d3, True)
+            c.ensure('flushing-write-accepted', 'raised is None and result is True')
+            if scenario in ('idle', 'idle-again'):
+                c.ensure('idle-queue-new-write-transmitted-at-once', "len(sent('cf.send_packet')) == 1")
+            else:
+                c.ensure('nothing-transmitted-while-a-write-is-in-flight', "len(sent('cf.send_packet')) == 1")
+            order, images = serve_writes(c, memh, regions, faults)
+        c.let('order', tuple(order))
+        c.let('ok_addrs', c.snapshot('ok_addrs_', note_addrs(c, 'note_write')))
+        c.let('bad_addrs', c.snapshot('bad_addrs_', note_addrs(c, 'note_write_failed')))
+        if scenario in ('idle', 'idle-again'):
+            c.ensure('new-write-performed', 'order == (2,) and ok_addrs == (addr3,) and bad_addrs == ()')
+        elif scenario == 'inflight-fails':
+            c.ensure('in-flight-write-fails-once-then-new-write-performed', 'order == (0, 2) and bad_addrs == (addr,) and ok_addrs == (addr3,)')
+        else:
+            c.ensure('in-flight-write-completed-then-new-write-performed-superseded-one-never-sent', 'order == (0, 0, 2)')
+            c.ensure('one-notification-each-in-order', 'ok_addrs == (addr, addr3) and bad_addrs == ()')
+            c.ensure('in-flight-write-reached-the-device-completely', image_equals(images[0], 30, 'd1'))
+        c.ensure('new-write-reached-the-device-completely', image_equals(images[2], 4, 'd3'))
+        quiescent(c)
+    return k
+
+
+for _s in ('idle', 'idle-again', 'inflight', 'inflight+queued', 'inflight-fails', 'after-first-chunk'):
+    _flush(_s)
+
+
+# --------------------------------------------------------------------------------------- several memories / both directions at once
+
+def second_memory(c, memh):
+    c.int('mid2', 0, 255)
+    c.require('mid2 != mid')
+    mem2 = c.new(ELT, c.get('mid2'), 0x18, 0x10000, memh)
+    c.let('mem2', mem2)
+    return mem2
+
+
+def answer_read(c, memh, idx, an, mn, L, midx='mid', status=0, tag=None):
+    """the device answers the idx-th transmitted packet (a read request) with the bytes of its image `mn` the request asks for"""
+    c.snapshot('rq', "sent('cf.send_packet')[%d][1][0]" % idx)
+    tag = '@%d' % idx if tag is None else tag
+    c.ensure('request-on-mem-read-channel' + tag, 'rq.port == 4 and rq.channel == 1 and len(rq.data) == 6 and rq.data[0] == %s' % midx)
+    off = c.concretize("unpack('<I', bytes(rq.data[1:5]))[0] - %s" % an)
+    ln = c.concretize('rq.data[5]')
+    c.let('off', off), c.let('ln', ln)
+    c.ensure('request-inside-range-and-fits-one-reply' + tag, '0 <= off and off + ln <= %d and ln <= 24' % L)
+    reply(c, memh, 1, 'rq.data[0:5]', status, '%s[%d:%d]' % (mn, max(off, 0), max(off + ln, 0)), tag=tag)
+
+
+def ack_write(c, memh, idx, an, L, image, midx='mid', status=0, tag=None):
+    """the device applies the idx-th transmitted packet (a write) to `image` and acknowledges it"""
+    c.snapshot('wq', "sent('cf.send_packet')[%d][1][0]" % idx)
+    tag = '@%d' % idx if tag is None else tag
+    c.ensure('packet-on-mem-write-channel' + tag, 'wq.port == 4 and wq.channel == 2 and len(wq.data) >= 5 and wq.data[0] == %s' % midx)
+    c.ensure('message-within-30-bytes' + tag, 'len(wq.data) <= 30')
+    off = c.concretize("unpack('<I', bytes(wq.data[1:5]))[0] - %s" % an)
+    n = c.concretize('len(wq.data)') - 5
+    c.let('woff', off)
+    c.ensure('write-inside-range' + tag, '0 <= woff and woff + %d <= %d' % (n, L))
+    for i in range(n):
+        nm = 'im_%s_%d_%d' % (an, off + i, idx)
+        c.snapshot(nm, 'wq.data[%d]' % (5 + i))
+        image[off + i] = nm
+    reply(c, memh, 2, 'wq.data[0:5]', status, tag=tag)
+
+
+def n_sent(c):
+    refresh(c)
+    return n_requests(c)
+
+
+def _two_reads(fault):
+    @contract('C06', 'two-memories.reads-interleaved.%s' % fault, READ_F,
+              clause='reading any address range of ANY memory returns exactly the bytes the device holds there: reads of two memories in flight at the '
+                     'same time, their replies interleaved, each complete with exactly one notification carrying the bytes of its own memory and range; '
+                     'an error reported for one memory fails only the read of that memory',
+              bounded='two reads of 21 bytes (two chunks each); ids, addresses and contents symbolic; one interleaving (B, A, A, B)')
+    def k(c):
+        memh, mem = setup(c)
+        second_memory(c, memh)
+        c.int('addrA', 0, 2 ** 32 - 100), c.int('addrB', 0, 2 ** 32 - 100)
+        c.bytes('MA', 21), c.bytes('MB', 21)
+        c.call((memh, 'read'), mem, c.get('addrA'), 21)
+        c.ensure('read-A-accepted', 'raised is None and result is True')
+        c.call((memh, 'read'), c.get('mem2'), c.get('addrB'), 21)
+        c.ensure('read-B-accepted-while-A-is-in-flight', "raised is None and result is True and len(sent('cf.send_packet')) == 2")
+        if n_sent(c) != 2:
+            return
+        nA = "sent('note_read')[0][1]"
+        if fault == 'error-on-B':
+            answer_read(c, memh, 1, 'addrB', 'MB', 21, 'mid2', status=17)
+            c.ensure('B-fails-alone', "len(sent('cf.send_packet')) == 2 and len(sent('note_read_failed')) == 1 and len(sent('note_read')) == 0 "
+                                      "and len(memh._read_requests) == 1")
+            c.ensure('failure-names-B', "is_same(sent('note_read_failed')[0][1][0], mem2) and sent('note_read_failed')[0][1][1] == addrB")
+            answer_read(c, memh, 0, 'addrA', 'MA', 21, 'mid')
+            if n_sent(c) != 3:
+                c.ensure('A-continues', 'False')
+                return
+            answer_read(c, memh, 2, 'addrA', 'MA', 21, 'mid')
+            c.ensure('A-completes-once', "len(sent('note_read')) == 1 and len(sent('note_read_failed')) == 1 and len(sent('cf.send_packet')) == 3")
+            c.ensure('A-data-equals-device-bytes-of-A', 'is_same(%s[0], mem) and %s[1] == addrA and bytes(%s[2]) == MA' % (nA, nA, nA))
+            quiescent(c)
+            return
+        answer_read(c, memh, 1, 'addrB', 'MB', 21, 'mid2')      # -> packet 2 = second chunk request of B
+        c.ensure('B-continues', "len(sent('cf.send_packet')) == 3 and len(sent('note_read')) == 0")
+        if n_sent(c) != 3:
+            return
+        answer_read(c, memh, 0, 'addrA', 'MA', 21, 'mid')       # -> packet 3 = second chunk request of A
+        c.ensure('A-continues', "len(sent('cf.send_packet')) == 4 and len(sent('note_read')) == 0")
+        if n_sent(c) != 4:
+            return
+        answer_read(c, memh, 3, 'addrA', 'MA', 21, 'mid')
+        c.ensure('A-complete-B-still-pending', "len(sent('note_read')) == 1 and len(memh._read_requests) == 1")
+        answer_read(c, memh, 2, 'addrB', 'MB', 21, 'mid2')
+        c.ensure('one-notification-each', "len(sent('note_read')) == 2 and len(sent('note_read_failed')) == 0 and len(sent('cf.send_packet')) == 4")
+        nB = "sent('note_read')[1][1]"
+        c.ensure('A-data-equals-device-bytes-of-A', 'is_same(%s[0], mem) and %s[1] == addrA and bytes(%s[2]) == MA' % (nA, nA, nA))
+        c.ensure('B-data-equals-device-bytes-of-B', 'is_same(%s[0], mem2) and %s[1] == addrB and bytes(%s[2]) == MB' % (nB, nB, nB))
+        quiescent(c)
+    return k
+
+
+_two_reads('none')
+_two_reads('error-on-B')
+
+
+def _two_writes(fault):
+    @contract('C06', 'two-memories.writes-interleaved.%s' % fault, WRITE_F,
+              clause='a completed write leaves the device memory equal to the written data: writes to two memories in flight at the same time, their '
+                     'acknowledgements interleaved, each complete with exactly one notification; an error reported for one memory fails only the '
+                     'write of that memory',
+              bounded='two writes of 26 bytes (two chunks each); ids, addresses and contents symbolic; one interleaving (B, A, A, B)')
+    def k(c):
+        memh, mem = setup(c)
+        second_memory(c, memh)
+        c.int('addrA', 0, 2 ** 32 - 100), c.int('addrB', 0, 2 ** 32 - 100)
+        dA = c.ints('dA', 26, 0, 255, kind='tuple')
+        dB = c.ints('dB', 26, 0, 255, kind='tuple')
+        imA, imB = {}, {}
+        c.call((memh, 'write'), mem, c.get('addrA'), dA)
+        c.ensure('write-A-accepted', 'raised is None and result is True')
+        c.call((memh, 'write'), c.get('mem2'), c.get('addrB'), dB)
+        c.ensure('write-B-transmitted-while-A-is-in-flight', "raised is None and result is True and len(sent('cf.send_packet')) == 2")
+        if n_sent(c) != 2:
+            return
+        if fault == 'error-on-B':
+            ack_write(c, memh, 1, 'addrB', 26, imB, 'mid2', status=12)
+            c.ensure('B-fails-alone', "len(sent('cf.send_packet')) == 2 and len(sent('note_write_failed')) == 1 and len(sent('note_write')) == 0")
+            c.ensure('failure-names-B', "is_same(sent('note_write_failed')[0][1][0], mem2) and sent('note_write_failed')[0][1][1] == addrB")
+            ack_write(c, memh, 0, 'addrA', 26, imA, 'mid')
+            if n_sent(c) != 3:
+                c.ensure('A-continues', 'False')
+                return
+            ack_write(c, memh, 2, 'addrA', 26, imA, 'mid')
+            c.ensure('A-completes-once', "len(sent('note_write')) == 1 and len(sent('note_write_failed')) == 1 and len(sent('cf.send_packet')) == 3")
+            c.ensure('success-names-A', "is_same(sent('note_write')[0][1][0], mem) and sent('note_write')[0][1][1] == addrA")
+            c.ensure('every-byte-of-A-written', image_equals(imA, 26, 'dA'))
+            quiescent(c)
+            return
+        ack_write(c, memh, 1, 'addrB', 26, imB, 'mid2')
+        c.ensure('B-continues', "len(sent('cf.send_packet')) == 3 and len(sent('note_write')) == 0")
+        if n_sent(c) != 3:
+            return
+        ack_write(c, memh, 0, 'addrA', 26, imA, 'mid')
+        c.ensure('A-continues', "len(sent('cf.send_packet')) == 4 and len(sent('note_write')) == 0")
+        if n_sent(c) != 4:
+            return
+        ack_write(c, memh, 3, 'addrA', 26, imA, 'mid')
+        c.ensure('A-complete-B-still-pending', "len(sent('note_write')) == 1")
+        ack_write(c, memh, 2, 'addrB', 26, imB, 'mid2')
+        c.ensure('one-notification-each', "len(sent('note_write')) == 2 and len(sent('note_write_failed')) == 0 and len(sent('cf.send_packet')) == 4")
+        nA, nB = "sent('note_write')[0][1]", "sent('note_write')[1][1]"
+        c.ensure('notifications-name-their-requests', 'is_same(%s[0], mem) and %s[1] == addrA and is_same(%s[0], mem2) and %s[1] == addrB' % (nA, nA, nB, nB))
+        c.ensure('every-byte-of-A-written', image_equals(imA, 26, 'dA'))
+        c.ensure('every-byte-of-B-written', image_equals(imB, 26, 'dB'))
+        quiescent(c)
+    return k
+
+
+_two_writes('none')
+_two_writes('error-on-B')
+
+
+@contract('C06', 'read-and-write-same-memory', READ_F + WRITE_F,
+          clause='a read and a write of the SAME memory in flight at the same time do not disturb each other: each completes with exactly one '
+                 'notification, the read returns the device bytes, the write reaches the device completely, no record or lock is left behind',
+          bounded='one read of 21 bytes and one write of 26 bytes; id, addresses and contents symbolic; one interleaving (w, r, r, w)')
+def read_and_write(c):
+    memh, mem = setup(c)
+    c.int('addrR', 0, 2 ** 32 - 100), c.int('addrW', 0, 2 ** 32 - 100)
+    c.bytes('MR', 21)
+    dW = c.ints('dW', 26, 0, 255, kind='tuple')
+    im = {}
+    c.call((memh, 'read'), mem, c.get('addrR'), 21)
+    c.ensure('read-accepted', 'raised is None and result is True')
+    c.call((memh, 'write'), mem, c.get('addrW'), dW)
+    c.ensure('write-transmitted-while-the-read-is-in-flight', "raised is None and result is True and len(sent('cf.send_packet')) == 2")
+    if n_sent(c) != 2:
+        return
+    ack_write(c, memh, 1, 'addrW', 26, im)
+    if n_sent(c) != 3:
+        c.ensure('write-continues', 'False')
+        return
+    answer_read(c, memh, 0, 'addrR', 'MR', 21)
+    if n_sent(c) != 4:
+        c.ensure('read-continues', 'False')
+        return
+    answer_read(c, memh, 3, 'addrR', 'MR', 21)
+    c.ensure('read-complete-write-pending', "len(sent('note_read')) == 1 and len(sent('note_write')) == 0")
+    ack_write(c, memh, 2, 'addrW', 26, im)
+    c.ensure('one-notification-each', "len(sent('note_read')) == 1 and len(sent('note_write')) == 1 and len(sent('note_read_failed')) == 0 "
+                                      "and len(sent('note_write_failed')) == 0 and len(sent('cf.send_packet')) == 4")
+    nR = "sent('note_read')[0][1]"
+    c.ensure('read-data-equals-device-bytes', 'is_same(%s[0], mem) and %s[1] == addrR and bytes(%s[2]) == MR' % (nR, nR, nR))
+    c.ensure('every-byte-written', image_equals(im, 26, 'dW'))
+    quiescent(c)
+
+
+# --------------------------------------------------------------------------------------- link drop with several requests pending; replies after the drop
+
+DROP_F = [MEM + ':Memory._disconnected', MEM + ':Memory._call_all_failed_callbacks', MEM + ':Memory._clear_state']
+
+
+def add_notes(c, memh, suffix=''):
+    for nm in ('mem_read_cb', 'mem_read_failed_cb', 'mem_write_cb', 'mem_write_failed_cb'):
+        c.invoke((c.getfield(memh, nm), 'add_callback'), c.ext(nm.replace('mem_', 'note_').replace('_cb', '') + suffix))
+
+
+@contract('C06', 'drop.every-pending-request-fails-once', READ_F + WRITE_F + DROP_F,
+          clause='when the link drops EVERY pending request - the reads in flight of every memory, the write in flight and the writes still '
+                 'queued behind it, of every memory - completes with exactly one failure notification naming it, none with a success; afterwards '
+                 'no lock or pending-request record is left; replies of the old connection that arrive late are ignored; after re-registering, '
+                 'new requests are served and complete normally',
+          bounded='two memories; two reads, three writes (one of them queued) pending at the drop; ids, addresses, contents symbolic')
+def drop_all(c):
+    memh, mem = setup(c)
+    mem2 = second_memory(c, memh)
+    c.int('rA', 0, 900), c.int('rB', 1000, 1900), c.int('wA1', 2000, 2900), c.int('wA2', 3000, 3900), c.int('wB', 4000, 4900)
+    d = c.ints('d', 30, 0, 255, kind='tuple')
+    c.call((memh, 'read'), mem, c.get('rA'), 30)
+    c.require('raised is None')
+    c.call((memh, 'read'), mem2, c.get('rB'), 5)
+    c.require('raised is None')
+    c.call((memh, 'write'), mem, c.get('wA1'), d)
+    c.require('raised is None')
+    c.call((memh, 'write'), mem, c.get('wA2'), (1, 2, 3))
+    c.require('raised is None')
+    c.call((memh, 'write'), mem2, c.get('wB'), (4, 5))
+    c.require('raised is None')
+    c.ensure('requests-in-flight-transmitted-queued-one-not', "len(sent('cf.send_packet')) == 4")
+    if n_sent(c) != 4:
+        return
+    c.snapshot('old_read_rq', "sent('cf.send_packet')[0][1][0]")
+    c.snapshot('old_write_rq', "sent('cf.send_packet')[2][1][0]")
+    c.reset_trace()
+    c.call((memh, '_disconnected'), 'radio://0/1')
+    c.ensure('disconnect-handled', 'raised is None')
+    c.ensure('nothing-transmitted-no-success', "len(sent('cf.send_packet')) == 0 and len(sent('note_read')) == 0 and len(sent('note_write')) == 0")
+    c.ensure('one-failure-per-pending-read', "len(sent('note_read_failed')) == 2 "
+             "and exists(sent('note_read_failed'), lambda e: is_same(e[1][0], mem) and e[1][1] == rA) "
+             "and exists(sent('note_read_failed'), lambda e: is_same(e[1][0], mem2) and e[1][1] == rB)")
+    c.ensure('one-failure-per-pending-write-including-the-queued-one', "len(sent('note_write_failed')) == 3 "
+             "and exists(sent('note_write_failed'), lambda e: is_same(e[1][0], mem) and e[1][1] == wA1) "
+             "and exists(sent('note_write_failed'), lambda e: is_same(e[1][0], mem) and e[1][1] == wA2) "
+             "and exists(sent('note_write_failed'), lambda e: is_same(e[1][0], mem2) and e[1][1] == wB)")
+    c.ensure('state-cleared-after-drop', 'len(memh._read_requests) == 0 and len(memh._write_requests) == 0 and not memh._write_requests_lock.locked()')
+    # late replies of the old connection
+    c.reset_trace()
+    reply(c, memh, 1, 'old_read_rq.data[0:5]', 0, 'bytes(20)', tag='@late-read-data')
+    reply(c, memh, 2, 'old_write_rq.data[0:5]', 0, tag='@late-write-ack')
+    reply(c, memh, 2, 'old_write_rq.data[0:5]', 3, tag='@late-write-error')
+    reply(c, memh, 1, 'old_read_rq.data[0:5]', 3, tag='@late-read-error')
+    c.ensure('late-replies-ignored', 'len(trace) == 0 and len(memh._read_requests) == 0 and not memh._write_requests_lock.locked()')
+    # the subsystem is usable again: a complete read and a complete write
+    add_notes(c, memh, '2')
+    c.bytes('M', 3)
+    c.reset_trace()
+    c.call((memh, 'read'), mem, c.get('rA'), 3)
+    c.ensure('next-read-accepted', "raised is None and result is True and len(sent('cf.send_packet')) == 1")
+    if n_sent(c) == 1:
+        answer_read(c, memh, 0, 'rA', 'M', 3, tag='@after-drop')
+        c.ensure('next-read-completes-once-with-the-device-bytes', "len(sent('note_read2')) == 1 and len(sent('note_read_failed2')) == 0 and "
+                 "bytes(sent('note_read2')[0][1][2]) == M")
+    c.reset_trace()
+    c.call((memh, 'write'), mem, c.get('wA2'), (7, 8))
+    c.ensure('next-write-transmitted', "raised is None and result is True and len(sent('cf.send_packet')) == 1")
+    if n_sent(c) == 1:
+        ack_write(c, memh, 0, 'wA2', 2, {}, tag='@after-drop')
+        c.ensure('next-write-completes-once', "len(sent('note_write2')) == 1 and len(sent('note_write_failed2')) == 0")
+    quiescent(c)
+
+
+@contract('C06', 'unsolicited-replies', [MEM + ':Memory._new_packet_cb', MEM + ':Memory._handle_chan_read', MEM + ':Memory._handle_chan_write'],
+          clause='replies that answer no pending request (a memory never accessed, or duplicated / delayed replies after completion), with any status, '
+                 'are ignored: no exception, no notification, no transmission, no lock or record left behind; requests are still served afterwards')
+def unsolicited(c):
+    memh, mem = setup(c)
+    c.int('a', 0, 2 ** 32 - 1), c.int('status', 0, 255), c.int('other', 0, 255)
+    ch = c.choice('channel', [1, 2])
+    c.snapshot('rdata', "bytes([other]) + pack('<I', a) + bytes([status])" + (" + bytes(3)" if ch == 1 else ''))
+    pk = c.new(STK + ':CRTPPacket', (4 << 4) | ch, c.get('rdata'))
+    c.call((memh, '_new_packet_cb'), pk)
+    c.ensure('ignored', 'raised is None and len(trace) == 0')
+    quiescent(c)
+    c.reset_trace()
+    if ch == 1:
+        c.call((memh, 'read'), mem, 5, 1)
+    else:
+        c.call((memh, 'write'), mem, 5, (1,))
+    c.ensure('next-request-served', "raised is None and result is True and len(sent('cf.send_packet')) == 1")
+
+
+# --------------------------------------------------------------------------------------- timing: the reply overtakes the return of the transmitting call
+
+def _early_reply(L):
+    @contract('C06', 'read.reply-before-send-returns.len%d' % L, READ_F,
+              clause='reading returns exactly the device bytes with exactly one notification whatever the timing of the reply: a reply that the '
+                     'receiving thread handles before the transmitting call of Memory.read has even returned is attributed to the request',
+              bounded='length %d; the first reply is dispatched synchronously from inside cf.send_packet (the earliest possible schedule); '
+                      'address, memory id and content symbolic' % L)
+    def k(c):
+        done = []
+        box = {}
+
+        def send(_i, args, _k):
+            if done:
+                return None
+            done.append(1)
+            c.let('rq0', args[0])
+            off = c.concretize("unpack('<I', bytes(rq0.data[1:5]))[0] - addr")
+            ln = c.concretize('rq0.data[5]')
+            c.let('off0', off), c.let('ln0', ln)
+            c.snapshot('rdata0', "bytes(rq0.data[0:5]) + bytes([0]) + M[%d:%d]" % (off, off + ln))
+            pk = c.new(STK + ':CRTPPacket', (4 << 4) | 1, c.get('rdata0'))
+            c.invoke((box['memh'], '_new_packet_cb'), pk)
+            return None
+        c.int('addr', 0, 2 ** 32 - 1 - L)
+        c.bytes('M', L)
+        memh, mem = setup(c, {'send_packet': send})
+        box['memh'] = memh
+        c.call((memh, 'read'), mem, c.get('addr'), L)
+        c.ensure('read-accepted', 'raised is None and result is True')
+        c.ensure('first-request-inside-range', '0 <= off0 and off0 + ln0 <= %d and ln0 <= 24' % L)
+        step = 1
+        while n_sent(c) == step + 1 and step < 6:
+            answer_read(c, memh, step, 'addr', 'M', L)
+            step += 1
+        c.snapshot('trace', 'trace')
+        c.ensure('exactly-one-success-notification', "len(sent('note_read')) == 1 and len(sent('note_read_failed')) == 0")
+        note = "sent('note_read')[0][1]"
+        c.ensure('data-equals-device-bytes', 'is_same(%s[0], mem) and %s[1] == addr and bytes(%s[2]) == M' % (note, note, note))
+        quiescent(c)
+        c.reset_trace()
+        c.call((memh, 'read'), mem, c.get('addr'), 1)
+        c.ensure('next-read-accepted', "raised is None and result is True and len(sent('cf.send_packet')) == 1")
+    return k
+
+
+_early_reply(1)
+_early_reply(21)
+
+
+# --------------------------------------------------------------------------------------- retransmission of the chunk in flight (resend)
+
+@contract('C06', 'read.resend', READ_F + [RR + '.resend'],
+          clause='delayed replies: re-requesting the chunk in flight asks for exactly the same bytes again (same memory, address, length, same retry '
+                 'pattern) at every stage of the transfer, and the read still completes once with exactly the device bytes when the device then '
+                 'answers both requests',
+          bounded='length 21 (two chunks), resend during the first and during the second chunk; address, memory id and content symbolic')
+def read_resend(c):
+    memh, mem = setup(c)
+    c.int('addr', 0, 2 ** 32 - 100)
+    c.bytes('M', 21)
+    when = c.choice('resend_during_chunk', [1, 2])
+    c.call((memh, 'read'), mem, c.get('addr'), 21)
+    c.require('raised is None')
+    if when == 2:
+        answer_read(c, memh, 0, 'addr', 'M', 21)
+    base = n_sent(c)
+    c.ensure('request-pending', 'len(memh._read_requests) == 1 and mid in memh._read_requests')
+    if c.concretize('len(memh._read_requests) == 1 and mid in memh._read_requests') != 1:
+        return
+    c.snapshot('rreq', 'memh._read_requests[mid]')
+    c.call((c.get('rreq'), 'resend'))
+    c.ensure('resend-transmits-one-message', "raised is None and len(sent('cf.send_packet')) == %d" % (base + 1))
+    if n_sent(c) != base + 1:
+        return
+    c.snapshot('p_old', "sent('cf.send_packet')[%d]" % (base - 1)), c.snapshot('p_new', "sent('cf.send_packet')[%d]" % base)
+    c.ensure('same-request-again', "bytes(p_new[1][0].data) == bytes(p_old[1][0].data) and p_new[1][0].port == 4 and p_new[1][0].channel == 1 "
+                                   "and p_new[2]['expected_reply'] == p_old[2]['expected_reply']")
+    # the device got the request twice and answers twice
+    answer_read(c, memh, base - 1, 'addr', 'M', 21)
+    answer_read(c, memh, base, 'addr', 'M', 21)
+    step = base + 1
+    while n_sent(c) == step + 1 and step < 8:
+        answer_read(c, memh, step, 'addr', 'M', 21)
+        step += 1
+    c.snapshot('trace', 'trace')
+    c.ensure('exactly-one-success-notification', "len(sent('note_read')) == 1 and len(sent('note_read_failed')) == 0")
+    c.ensure('data-equals-device-bytes', "sent('note_read')[0][1][1] == addr and bytes(sent('note_read')[0][1][2]) == M")
+    quiescent(c)
+
+
+@contract('C06', 'write.resend', WRITE_F + [WR + '.resend'],
+          clause='delayed replies: retransmitting the chunk in flight sends exactly the same message again (same memory, address, data, same retry '
+                 'pattern) at every stage of the transfer - not an earlier or a later chunk - and the write still completes once with the device '
+                 'memory equal to the data when the device then applies and acknowledges both copies',
+          bounded='length 26 (two chunks), resend during the first and during the second chunk; address, memory id and content symbolic')
+def write_resend(c):
+    memh, mem = setup(c)
+    c.int('addr', 0, 2 ** 32 - 100)
+    d = c.ints('d', 26, 0, 255, kind='tuple')
+    when = c.choice('resend_during_chunk', [1, 2])
+    im = {}
+    c.call((memh, 'write'), mem, c.get('addr'), d)
+    c.require('raised is None')
+    if when == 2:
+        ack_write(c, memh, 0, 'addr', 26, im)
+    base = n_sent(c)
+    c.ensure('request-pending', 'mid in memh._write_requests and len(memh._write_requests[mid]) == 1')
+    if c.concretize('mid in memh._write_requests and len(memh._write_requests[mid]) == 1') != 1:
+        return
+    c.snapshot('wreq', 'memh._write_requests[mid][0]')
+    c.call((c.get('wreq'), 'resend'))
+    c.ensure('resend-transmits-one-message', "raised is None and len(sent('cf.send_packet')) == %d" % (base + 1))
+    if n_sent(c) != base + 1:
+        return
+    c.snapshot('p_old', "sent('cf.send_packet')[%d]" % (base - 1)), c.snapshot('p_new', "sent('cf.send_packet')[%d]" % base)
+    c.ensure('same-message-again', "bytes(p_new[1][0].data) == bytes(p_old[1][0].data) and p_new[1][0].port == 4 and p_new[1][0].channel == 2 "
+                                   "and p_new[2]['expected_reply'] == p_old[2]['expected_reply']")
+    ack_write(c, memh, base - 1, 'addr', 26, im)
+    ack_write(c, memh, base, 'addr', 26, im)
+    step = base + 1
+    while n_sent(c) == step + 1 and step < 8:
+        ack_write(c, memh, step, 'addr', 26, im)
+        step += 1
+    c.snapshot('trace', 'trace')
+    c.ensure('exactly-one-success-notification', "len(sent('note_write')) == 1 and len(sent('note_write_failed')) == 0")
+    c.ensure('every-byte-written', image_equals(im, 26, 'd'))
+    quiescent(c)
+
+
+# --------------------------------------------------------------------------------------- ANY length: base case and handler-level step of the induction
+#
+# Together with step.read.add_data / step.write.write_done these close the induction over the number of chunks at the level of
+# the public interface, for a transfer of ANY length (not only the enumerated ones): the base case establishes the request state
+# the step contracts start from, the handler step shows that the notification is raised and the record removed exactly when the
+# last chunk is answered.
+
+@contract('C06', 'step.read.start', [MEM + ':Memory.read', RR + '.start', RR + '._request_new_chunk'],
+          clause='base case of a read of ANY length: Memory.read registers the request (nothing received yet, whole range outstanding) and asks for '
+                 'the first min(length, 20) bytes at the start address, in one message, with the retry pattern id + address')
+def step_read_start(c):
+    memh, mem = setup(c)
+    c.int('addr0', 0, 2 ** 32 - 1), c.int('length', 0, 2 ** 32 - 1)
+    c.call((memh, 'read'), mem, c.get('addr0'), c.get('length'))
+    c.ensure('accepted', 'raised is None and result is True')
+    c.ensure('one-request', "len(sent('cf.send_packet')) == 1 and len(trace) == 1")
+    c.ensure('request-registered', 'len(memh._read_requests) == 1 and mid in memh._read_requests')
+    if n_sent(c) != 1 or c.concretize('len(memh._read_requests) == 1 and mid in memh._read_requests') != 1:
+        return
+    c.snapshot('pk', "sent('cf.send_packet')[0][1][0]")
+    c.ensure('first-request-layout', "pk.port == 4 and pk.channel == 1 and bytes(pk.data) == pack('<BIB', mid, addr0, min(length, 20))")
+    c.ensure('retry-pattern', "sent('cf.send_packet')[0][2]['expected_reply'] == tuple(pk.data[0:5])")
+    c.snapshot('rr', 'memh._read_requests[mid]')
+    c.ensure('request-state-is-the-start-of-the-induction', 'len(memh._read_requests) == 1 and is_same(rr.mem, mem) and rr.addr == addr0 and len(rr.data) == 0 '
+                                                            'and rr._current_addr == addr0 and rr._bytes_left == length')
+
+
+@contract('C06', 'step.write.start', [MEM + ':Memory.write', WR + '.start', WR + '._write_new_chunk'],
+          clause='base case of a write of ANY length to an idle memory: Memory.write queues the request and transmits the first min(len, 25) bytes '
+                 'of the data at the start address in a message of at most 30 bytes with the retry pattern id + address; the rest is outstanding; '
+                 'the lock is free again')
+def step_write_start(c):
+    memh, mem = setup(c)
+    D = c.view('D', 'bytes')
+    c.int('addr0', 0, 2 ** 32 - 1)
+    c.require('addr0 + len(D) <= 2 ** 32 - 1')
+    flush = c.choice('flush_queue', [False, True])
+    c.call((memh, 'write'), mem, c.get('addr0'), D, flush)
+    c.ensure('accepted', 'raised is None and result is True')
+    c.ensure('one-message', "len(sent('cf.send_packet')) == 1 and len(trace) == 1")
+    c.ensure('request-queued', 'mid in memh._write_requests and len(memh._write_requests[mid]) == 1')
+    if n_sent(c) != 1 or c.concretize('mid in memh._write_requests and len(memh._write_requests[mid]) == 1') != 1:
+        return
+    c.snapshot('pk', "sent('cf.send_packet')[0][1][0]")
+    c.snapshot('off3', 'min(25, len(D))')
+    c.ensure('first-chunk-layout', "pk.port == 4 and pk.channel == 2 and bytes(pk.data[0:5]) == pack('<BI', mid, addr0) and bytes(pk.data[5:]) == D[0:off3]")
+    c.ensure('message-within-30-bytes', 'len(pk.data) <= 30')
+    c.ensure('retry-pattern', "sent('cf.send_packet')[0][2]['expected_reply'] == tuple(pk.data[0:5])")
+    c.snapshot('wr', 'memh._write_requests[mid][0]')
+    c.ensure('request-state-is-the-start-of-the-induction', 'len(memh._write_requests[mid]) == 1 and is_same(wr.mem, mem) and wr.addr == addr0 and '
+                                                            'bytes(wr._data) == D[off3:] and wr._current_addr == addr0 and wr._addr_add == off3')
+    c.ensure('write-lock-free', 'not memh._write_requests_lock.locked()')
+
+
+@contract('C06', 'step.read.handler', [MEM + ':Memory._new_packet_cb', MEM + ':Memory._handle_chan_read', RR + '.add_data', RR + '._request_new_chunk'],
+          clause='handler-level step of a read of ANY length: with the device bytes [addr0, cur) received, the reply carrying the next n bytes either '
+                 'triggers exactly one further request and no notification (bytes still outstanding; the record stays), or - exactly when it was the '
+                 'last chunk - removes the record and raises exactly one success notification carrying (memory, start address, ALL device bytes '
+                 'of the range); an error status removes the record and raises exactly one failure notification instead',
+          bounded='reply sizes n in {1, 2, 20, 24} (the total length, the progress k, address, id and content are unbounded / symbolic)')
+def step_read_handler(c):
+    memh, mem = setup(c)
+    M = c.view('M', 'bytes')
+    c.int('addr0', 0, 2 ** 32 - 1), c.int('k', 0)
+    n = c.choice('n', [1, 2, 20, 24])
+    c.let('n', n)
+    c.require('k + n <= len(M) and addr0 + len(M) <= 2 ** 32 - 1')
+    rr = c.new(RR, mem, c.get('addr0'), c.snapshot('len0', 'len(M)'), c.getfield(memh, 'cf'))
+    c.set(rr, 'data', c.snapshot('d0', 'bytearray(M[0:k])'))
+    c.set(rr, '_bytes_left', c.snapshot('left0', 'len(M) - k'))
+    c.set(rr, '_current_addr', c.snapshot('cur0', 'addr0 + k'))
+    c.let('rr', rr)
+    c.set(memh, '_read_requests', c.dict([(c.get('mid'), rr)]))
+    status_ok = c.choice('status_ok', [True, False])
+    if status_ok:
+        c.let('status', 0)
+    else:
+        c.int('status', 1, 255)
+    c.snapshot('rdata', "bytes([mid]) + pack('<I', cur0) + bytes([status]) + M[k:k + %d]" % n)
+    pk = c.new(STK + ':CRTPPacket', (4 << 4) | 1, c.get('rdata'))
+    c.reset_trace()
+    c.call((memh, '_new_packet_cb'), pk)
+    c.ensure('no-exception', 'raised is None')
+    if not status_ok:
+        c.ensure('error-status-one-failure-notification-record-removed', "calls() == ('note_read_failed',) and len(memh._read_requests) == 0 and "
+                 "is_same(sent('note_read_failed')[0][1][0], mem) and sent('note_read_failed')[0][1][1] == addr0")
+        return
+    c.ensure('complete-iff-nothing-left', "iff(len(sent('note_read')) == 1, k + n == len(M)) and len(sent('note_read')) <= 1 and len(sent('note_read_failed')) == 0")
+    c.ensure('record-removed-iff-complete', 'iff(len(memh._read_requests) == 0, k + n == len(M)) and len(memh._read_requests) <= 1')
+    c.ensure('next-request-iff-incomplete', "iff(len(sent('cf.send_packet')) == 1, k + n < len(M)) and len(sent('cf.send_packet')) <= 1")
+    if len(c.get('trace')) == 1 and c.get('trace')[0][0] == 'note_read':
+        c.snapshot('note', "sent('note_read')[0][1]")
+        c.ensure('notification-carries-the-whole-range', 'is_same(note[0], mem) and note[1] == addr0 and bytes(note[2]) == M')
+
+
+@contract('C06', 'step.write.handler', [MEM + ':Memory._new_packet_cb', MEM + ':Memory._handle_chan_write', WR + '.write_done', WR + '._write_new_chunk', WR + '.start'],
+          clause='handler-level step of a write of ANY length: the acknowledgement of the chunk in flight either transmits exactly the next chunk and '
+                 'raises no notification (data still outstanding; the queue is unchanged), or - exactly when it was the last chunk - removes the '
+                 'request from the head of the queue, raises exactly one success notification (memory, start address) and starts the next queued '
+                 'write; an error status removes it, raises exactly one failure notification and starts the next queued write; the lock is free')
+def step_write_handler(c):
+    memh, mem = setup(c)
+    D = c.view('D', 'bytes')
+    c.int('addr0', 0, 2 ** 32 - 1), c.int('off', 0), c.int('off2', 0), c.int('addr_next', 0, 2 ** 32 - 1)
+    c.require('off <= off2 and off2 <= len(D) and off2 - off <= 25 and addr0 + len(D) <= 2 ** 32 - 1')
+    cf = c.getfield(memh, 'cf')
+    wr = c.new(WR, mem, c.get('addr0'), D, cf)
+    c.set(wr, '_data', c.snapshot('rest0', 'D[off2:]'))
+    c.set(wr, '_current_addr', c.snapshot('cur0', 'addr0 + off'))
+    c.set(wr, '_addr_add', c.snapshot('add0', 'off2 - off'))
+    c.set(wr, '_bytes_left', c.snapshot('left0', 'len(D) - off2'))
+    c.let('wr', wr)
+    queued = c.choice('another_write_queued', [False, True])
+    nxt = c.new(WR, mem, c.get('addr_next'), (9, 8, 7), cf)
+    c.let('nxt', nxt)
+    c.set(memh, '_write_requests', c.dict([(c.get('mid'), c.list([wr, nxt] if queued else [wr]))]))
+    status_ok = c.choice('status_ok', [True, False])
+    if status_ok:
+        c.let('status', 0)
+    else:
+        c.int('status', 1, 255)
+    c.snapshot('rdata', "bytes([mid]) + pack('<I', cur0) + bytes([status])")
+    pk = c.new(STK + ':CRTPPacket', (4 << 4) | 2, c.get('rdata'))
+    c.reset_trace()
+    c.call((memh, '_new_packet_cb'), pk)
+    c.ensure('no-exception', 'raised is None')
+    c.ensure('write-lock-free', 'not memh._write_requests_lock.locked()')
+    c.let('nq', 1 if queued else 0)
+    c.snapshot('q', 'memh._write_requests[mid]')
+    if not status_ok:
+        c.ensure('error-status-one-failure-notification-request-removed', "len(sent('note_write_failed')) == 1 and len(sent('note_write')) == 0 and len(q) == nq and "
+                 "is_same(sent('note_write_failed')[0][1][0], mem) and sent('note_write_failed')[0][1][1] == addr0")
+        c.ensure('next-queued-write-started', "len(sent('cf.send_packet')) == nq")
+        if queued:
+            c.ensure('next-queued-write-first-chunk', "is_same(q[0], nxt) and bytes(sent('cf.send_packet')[0][1][0].data) == pack('<BI', mid, addr_next) + bytes([9, 8, 7])")
+        return
+    c.ensure('complete-iff-nothing-left', "iff(len(sent('note_write')) == 1, off2 == len(D)) and len(sent('note_write')) <= 1 and len(sent('note_write_failed')) == 0")
+    c.ensure('request-removed-iff-complete', 'iff(len(q) == nq, off2 == len(D)) and iff(len(q) == nq + 1, off2 < len(D))')
+    done = c.concretize('len(q)') == (1 if queued else 0)
+    if done:
+        c.ensure('notification-names-the-request', "is_same(sent('note_write')[0][1][0], mem) and sent('note_write')[0][1][1] == addr0")
+        c.ensure('next-queued-write-started', "len(sent('cf.send_packet')) == nq")
+        if queued:
+            c.ensure('next-queued-write-first-chunk', "is_same(q[0], nxt) and bytes(sent('cf.send_packet')[0][1][0].data) == pack('<BI', mid, addr_next) + bytes([9, 8, 7])")
+    else:
+        c.ensure('exactly-the-next-chunk-transmitted', "len(sent('cf.send_packet')) == 1 and is_same(q[0], wr)")
+        c.snapshot('pk2', "sent('cf.send_packet')[0][1][0]")
+        c.snapshot('off3', 'min(off2 + 25, len(D))')
+        c.ensure('next-chunk-layout', "pk2.port == 4 and pk2.channel == 2 and bytes(pk2.data[0:5]) == pack('<BI', mid, addr0 + off2) and bytes(pk2.data[5:]) == D[off2:off3]")
+        c.ensure('message-within-30-bytes', 'len(pk2.data) <= 30')
+
+
+# --------------------------------------------------------------------------------------- enumeration: the memory objects requests are made through
+
+MT = 'cflib.crazyflie.mem.memory_tester:MemoryTester'
+ENUM_F = [MEM + ':Memory.refresh', MEM + ':Memory._handle_chan_info', MEM + ':Memory._handle_cmd_info_nbr', MEM + ':Memory._handle_cmd_info_details',
+          MEM + ':Memory.get_mem', MEM + ':Memory.get_mems']
+
+
+def info(c, memh, data_expr):
+    c.snapshot('idata', 'bytes(%s)' % data_expr)
+    pk = c.new(STK + ':CRTPPacket', (4 << 4) | 0, c.get('idata'))
+    c.call((memh, '_new_packet_cb'), pk)
+    c.ensure('info-reply-handled-without-exception', 'raised is None')
+
+
+def enumerate_mems(c, memh, tag=''):
+    """the device reports two memories: id 0 = memory tester (type 0x15), id 1 = deck memory (type 0x19); sizes symbolic"""
+    if not tag:
+        c.int('size0', 0, 2 ** 32 - 1), c.int('size1', 0, 2 ** 32 - 1)
+    done = c.ext('refresh_done' + tag)
+    c.reset_trace()
+    c.call((memh, 'refresh'), done)
+    c.ensure('refresh-asks-for-the-number-of-memories', "raised is None and len(sent('cf.send_packet')) == 1 and "
+             "tuple(sent('cf.send_packet')[0][1][0].data) == (1,) and sent('cf.send_packet')[0][1][0].port == 4 and sent('cf.send_packet')[0][1][0].channel == 0")
+    info(c, memh, '[1, 2]')
+    c.ensure('asks-for-memory-0', "len(sent('cf.send_packet')) == 2 and tuple(sent('cf.send_packet')[1][1][0].data) == (2, 0)")
+    info(c, memh, "bytes([2, 0, 0x15]) + pack('<I', size0) + bytes(8)")
+    c.ensure('asks-for-memory-1', "len(sent('cf.send_packet')) == 3 and tuple(sent('cf.send_packet')[2][1][0].data) == (2, 1) and len(sent('refresh_done%s')) == 0" % tag)
+    info(c, memh, "bytes([2, 1, 0x19]) + pack('<I', size1) + bytes(8)")
+    c.ensure('enumeration-complete-notified-once', "len(sent('cf.send_packet')) == 3 and len(sent('refresh_done%s')) == 1" % tag)
+    c.let('mid', 0)
+    c.let('tester', c.invoke((memh, 'get_mem'), 0))
+    c.let('deck', c.invoke((memh, 'get_mem'), 1))
+    c.reset_trace()
+
+
+def enumerated(c, cf_returns=None):
+    cf = c.ext('cf', returns=cf_returns or {})
+    memh = c.new(MEM + ':Memory', cf)
+    c.let('memh', memh)
+    add_notes(c, memh)
+    enumerate_mems(c, memh)
+    return memh
+
+
+@contract('C06', 'enumeration.memories-found', ENUM_F,
+          clause='reading / writing ANY memory of the Crazyflie: the memories the device reports are each represented by exactly one object carrying the '
+                 "device's id, type and size (requests made through it address that id), found by id and by type; the enumeration completes with "
+                 'exactly one notification',
+          bounded='two memories (tester 0x15 as id 0, deck memory 0x19 as id 1); sizes symbolic')
+def enumeration(c):
+    memh = enumerated(c)
+    c.ensure('one-object-per-reported-memory', 'len(memh.mems) == 2 and memh.nbr_of_mems == 2')
+    c.ensure('tester-carries-device-id-type-size', "typename(tester) == 'MemoryTester' and tester.id == 0 and tester.type == 0x15 and tester.size == size0")
+    c.ensure('deck-carries-device-id-type-size', "typename(deck) == 'DeckMemoryManager' and deck.id == 1 and deck.type == 0x19 and deck.size == size1")
+    c.ensure('unknown-id-not-found', 'memh.get_mem(2) is None')
+    c.ensure('found-by-type', 'len(memh.get_mems(0x15)) == 1 and is_same(memh.get_mems(0x15)[0], tester) and len(memh.get_mems(0x19)) == 1 '
+                              'and is_same(memh.get_mems(0x19)[0], deck) and memh.get_mems(0x12) == ()')
+    # a request through the object addresses the device's id
+    c.call((memh, 'read'), c.get('deck'), 16, 4)
+    c.ensure('read-through-the-object-addresses-its-id', "raised is None and bytes(sent('cf.send_packet')[0][1][0].data) == pack('<BIB', 1, 16, 4)")
+
+
+# --------------------------------------------------------------------------------------- MemoryTester (end to end through the real Memory)
+
+TEST_F = [MT + '.__init__', MT + '.new_data', MT + '.read_data', MT + '.write_data', MT + '.write_done', MT + '.disconnect']
+
+
+def _tester_write(L):
+    @contract('C06', 'tester.write.len%d' % L, TEST_F + WRITE_F + ENUM_F,
+              clause='a completed write leaves the device memory equal to the written data over the addressed range: MemoryTester.write_data writes the '
+                     'test pattern (address & 0xff) over exactly [start, start+size), in messages within the protocol limits, and reports completion '
+                     'exactly once; a second write_data is served the same way',
+              bounded='size %d (enumerated 0, 1, 26); start address symbolic' % L)
+    def k(c):
+        memh = enumerated(c)
+        tester = c.get('tester')
+        c.int('start', 0, 2 ** 32 - 1 - max(L, 1))
+        cb = c.ext('write_finished')
+        for rnd in (1, 2):
+            im = {}
+            c.reset_trace()
+            c.call((tester, 'write_data'), c.get('start'), L, cb)
+            c.ensure('write-transmitted', "raised is None and len(sent('cf.send_packet')) == 1")
+            step = 0
+            while n_sent(c) == step + 1 and step < 6:
+                ack_write(c, memh, step, 'start', L, im)
+                step += 1
+            c.snapshot('trace', 'trace')
+            c.ensure('completion-reported-once', "len(sent('write_finished')) == 1 and len(sent('note_write')) == 1 and len(sent('note_write_failed')) == 0")
+            c.ensure('completion-names-the-request', "is_same(sent('write_finished')[0][1][0], tester) and sent('write_finished')[0][1][1] == start")
+            c.ensure('device-holds-the-pattern-over-the-range', 'True' if L == 0 else
+                     ' and '.join('%s == (start + %d) & 0xff' % (im.get(i, 'None'), i) for i in range(L)))
+            quiescent(c)
+    return k
+
+
+for _L in (0, 1, 26):
+    _tester_write(_L)
+
+
+def tester_read_history(c, memh, L, flag_box=None):
+    """one read_data of L bytes answered by the device with image M; returns after the last reply"""
+    tester = c.get('tester')
+
+    def at_cb(_i, args, _k):
+        if flag_box is not None:
+            flag_box.append(c.getfield(tester, 'readValidationSucess'))
+        return None
+    cb = c.ext('read_finished', returns={'()': at_cb})
+    c.reset_trace()
+    c.call((tester, 'read_data'), c.get('start'), L, cb)
+    c.ensure('read-transmitted', "raised is None and len(sent('cf.send_packet')) == 1")
+    step = 0
+    while n_sent(c) == step + 1 and step < 6:
+        answer_read(c, memh, step, 'start', 'M', L)
+        step += 1
+    c.snapshot('trace', 'trace')
+
+
+def pattern_except(c, L, j):
+    """device image: the test pattern everywhere except (possibly) at index j"""
+    c.bytes('M', L)
+    for i in range(L):
+        if i != j:
+            c.require('M[%d] == (start + %d) & 0xff' % (i, i))
+
+
+def _tester_read(L):
+    @contract('C06', 'tester.read.len%d' % L, TEST_F + READ_F + ENUM_F,
+              clause='reading returns exactly the bytes the device holds: MemoryTester.read_data reads [start, start+size) and, when the read has '
+                     'completed, reports exactly once and has validated EVERY byte against the test pattern (address & 0xff): the verdict is positive '
+                     'exactly when the device bytes equal the pattern; afterwards a further read_data is served',
+              bounded='size %d (enumerated 1, 21); start address symbolic; device image = pattern with one arbitrary byte at index 0, 1 or size-1' % L)
+    def k(c):
+        memh = enumerated(c)
+        tester = c.get('tester')
+        c.int('start', 0, 2 ** 32 - 1 - L)
+        j = c.choice('odd_byte', sorted(set([0, min(1, L - 1), L - 1])))
+        pattern_except(c, L, j)
+        tester_read_history(c, memh, L)
+        c.ensure('completion-reported-once', "len(sent('read_finished')) == 1 and len(sent('note_read')) == 1 and len(sent('note_read_failed')) == 0")
+        c.ensure('completion-names-the-tester', "is_same(sent('read_finished')[0][1][0], tester)")
+        c.ensure('verdict-positive-iff-device-bytes-equal-the-pattern', 'tester.readValidationSucess == (M[%d] == (start + %d) & 0xff)' % (j, j))
+        quiescent(c)
+        c.reset_trace()
+        c.call((tester, 'read_data'), c.get('start'), 1, c.ext('read_finished2'))
+        c.ensure('next-read-served', "raised is None and len(sent('cf.send_packet')) == 1")
+    return k
+
+
+_tester_read(1)
+_tester_read(21)
+
+
+@contract('C06', 'tester.read.len0', TEST_F + READ_F + ENUM_F, thorough_only=True,
+          clause='every read request completes with exactly one notification, for length 0 too, and afterwards further requests are served: '
+                 'MemoryTester.read_data of 0 bytes reports completion once and the next read_data is transmitted')
+def tester_read_len0(c):
+    memh = enumerated(c)
+    tester = c.get('tester')
+    c.int('start', 0, 2 ** 32 - 2)
+    c.bytes('M', 0)
+    tester_read_history(c, memh, 0)
+    c.ensure('memory-level-completion', "len(sent('note_read')) == 1")
+    c.ensure('completion-reported-once', "len(sent('read_finished')) == 1")
+    c.reset_trace()
+    c.call((tester, 'read_data'), c.get('start'), 1, c.ext('read_finished2'))
+    c.ensure('next-read-served', "raised is None and len(sent('cf.send_packet')) == 1")
+
+
+@contract('C06', 'tester.read.error-then-next-served', TEST_F + READ_F + ENUM_F, thorough_only=True,
+          clause='this holds when replies report an error: afterwards further requests are still served, no pending-request record is left '
+                 'behind - after a MemoryTester read that the device answered with an error status the next read_data is transmitted')
+def tester_read_error(c):
+    memh = enumerated(c)
+    tester = c.get('tester')
+    c.int('start', 0, 2 ** 32 - 10), c.int('status', 1, 255)
+    c.call((tester, 'read_data'), c.get('start'), 3, c.ext('read_finished'))
+    c.require("raised is None and len(sent('cf.send_packet')) == 1")
+    c.snapshot('rq', "sent('cf.send_packet')[0][1][0]")
+    c.snapshot('rdata', 'bytes(rq.data[0:5]) + bytes([status])')
+    pk = c.new(STK + ':CRTPPacket', (4 << 4) | 1, c.get('rdata'))
+    c.call((memh, '_new_packet_cb'), pk)
+    c.ensure('error-reply-handled', "raised is None and len(sent('note_read_failed')) == 1")
+    quiescent(c)
+    c.reset_trace()
+    c.call((tester, 'read_data'), c.get('start'), 1, c.ext('read_finished2'))
+    c.ensure('next-read-served', "raised is None and len(sent('cf.send_packet')) == 1")
+
+
+@contract('C06', 'tester.read.validated-before-reported', TEST_F + READ_F + ENUM_F, thorough_only=True,
+          clause='MemoryTester usage contract ("wait for the callback, then verify readValidationSucess"): when completion is reported every byte '
+                 'has been validated - the verdict seen from inside the completion callback equals the final verdict',
+          bounded='size 3; start symbolic; device image = pattern with one arbitrary byte at index 0, 1 or 2')
+def tester_read_validated(c):
+    memh = enumerated(c)
+    tester = c.get('tester')
+    c.int('start', 0, 2 ** 32 - 10)
+    j = c.choice('odd_byte', [0, 1, 2])
+    pattern_except(c, 3, j)
+    box = []
+    tester_read_history(c, memh, 3, box)
+    c.ensure('completion-reported-once', "len(sent('read_finished')) == 1")
+    c.let('verdict_at_callback', box[0] if box else None)
+    c.ensure('verdict-at-callback-is-final', 'verdict_at_callback == tester.readValidationSucess')
+    c.ensure('verdict-positive-iff-device-bytes-equal-the-pattern', 'tester.readValidationSucess == (M[%d] == (start + %d) & 0xff)' % (j, j))
+
+
+# --------------------------------------------------------------------------------------- deck memories: blocking wrappers, command writes, disconnect
+
+DMC = DM + ':DeckMemory'
+DMM = DM + ':DeckMemoryManager'
+
+
+def deck_with_peer(c, outcome_of=None):
+    """a DeckMemoryManager whose memory handler is a stub standing for Memory + receiving thread: a request is answered (from the
+    receiving thread's point of view: while the caller blocks) by invoking the manager's completion callbacks, as Memory does"""
+    box = {}
+
+    def do_write(_i, args, kw):
+        what = outcome_of('write') if outcome_of else 'done'
+        if what == 'done':
+            c.invoke((box['mgr'], '_write_done'), box['mgr'], args[1])
+        elif what == 'failed':
+            c.invoke((box['mgr'], '_write_failed'), box['mgr'], args[1])
+        return True
+
+    def do_read(_i, args, kw):
+        what = outcome_of('read') if outcome_of else 'done'
+        if what == 'done':
+            c.invoke((box['mgr'], '_new_data'), box['mgr'], args[1], c.get('rdata_dev'))
+        elif what == 'failed':
+            c.invoke((box['mgr'], '_new_data_failed'), box['mgr'], args[1], c.get('rdata_dev'))
+        return True
+    memh = c.ext('memh', returns={'read': do_read, 'write': do_write})
+    mgr = c.new(DMM, 7, 0x19, 0x10000, memh)
+    box['mgr'] = mgr
+    c.int('base', 0x10000000, 2 ** 31), c.int('address', 0, 0x0FFFFFFF)
+    c.int('cmd_base', 0x1000, 0x10FF)
+    dm = c.new(DMC, mgr, c.get('cmd_base'))
+    c.set(dm, '_base_address', c.get('base'))
+    c.set(dm, '_bit_field1', 1 | 2 | 4 | 8)
+    c.let('mgr', mgr), c.let('dm', dm)
+    return memh, mgr, dm
+
+
+@contract('C06', 'deck.sync-wrappers', [DMC + '.write_sync', DMC + '.read_sync', DMC + '.write', DMC + '.read', DMM + '._write', DMM + '._read',
+                                        DMM + '._write_done', DMM + '._write_failed', DMM + '._new_data', DMM + '._new_data_failed'],
+          clause='the blocking deck-memory calls return when, and only when, the request has completed and report its outcome: write_sync is True '
+                 'after a success and False after a failure notification; read_sync returns exactly the bytes delivered, None after a failure; '
+                 'the request goes to base + address; nothing stays pending - the next blocking call is served',
+          bounded='the completion is delivered while the caller is inside the request call (the receiving thread is faster than the caller)')
+def deck_sync(c):
+    outcome = c.choice('outcome', ['done', 'failed'])
+    memh, mgr, dm = deck_with_peer(c, lambda _w: outcome)
+    c.let('rdata_dev', c.bytes('devbytes', 5))
+    op = c.choice('operation', ['write', 'read'])
+    wdata = c.bytes('wdata', 4)
+    for rnd in (1, 2):
+        c.reset_trace()
+        if op == 'write':
+            c.call((dm, 'write_sync'), c.get('address'), wdata)
+            c.ensure('returns-without-blocking-forever', 'raised is None')
+            c.ensure('request-to-mapped-address', "len(sent('memh.write')) == 1 and sent('memh.write')[0][1][0:3] == (mgr, base + address, wdata)")
+            c.ensure('outcome-reported', 'result is %s' % (outcome == 'done'))
+        else:
+            c.call((dm, 'read_sync'), c.get('address'), 5)
+            c.ensure('returns-without-blocking-forever', 'raised is None')
+            c.ensure('request-to-mapped-address', "len(sent('memh.read')) == 1 and sent('memh.read')[0][1] == (mgr, base + address, 5)")
+            c.ensure('outcome-reported', 'result == devbytes' if outcome == 'done' else 'result is None')
+
+
+def _deck_command(cmd):
+    @contract('C06', 'deck.command.%s' % cmd, [DMC + '.' + cmd, DMC + '._write_command_data', DMM + '._write', DMM + '._write_done', DMM + '._write_failed'],
+              clause='deck command writes are writes like any other: exactly the command bytes go to the command section of that deck '
+                     '(command base + field address), the call returns when the write has completed (success or failure), and nothing stays '
+                     'pending - a following write is served; a deck that is not started is refused without any transmission')
+    def k(c):
+        outcome = c.choice('outcome', ['done', 'failed'])
+        memh, mgr, dm = deck_with_peer(c, lambda _w: outcome)
+        c.int('size', 0, 2 ** 32 - 1)
+        c.reset_trace()
+        if cmd == 'set_fw_new_flash_size':
+            c.call((dm, cmd), c.get('size'))
+            c.let('want', c.snapshot('want_', "(mgr, cmd_base + 0, pack('<L', size))"))
+        else:
+            c.call((dm, cmd))
+            c.let('want', c.snapshot('want_', "(mgr, cmd_base + 4, bytes([%d]))" % (1 if cmd == 'reset_to_fw' else 2)))
+        c.ensure('returns-without-blocking-forever', 'raised is None')
+        c.ensure('exactly-the-command-bytes-to-the-command-section', "len(trace) == 1 and sent('memh.write')[0][1][0:3] == want")
+        c.reset_trace()
+        c.call((dm, 'write_sync'), c.get('address'), c.bytes('wdata', 2))
+        c.ensure('next-write-served', "raised is None and len(sent('memh.write')) == 1")
+        # not started: refused
+        c.set(dm, '_bit_field1', 1 | 4 | 8)
+        c.reset_trace()
+        if cmd == 'set_fw_new_flash_size':
+            c.call((dm, cmd), c.get('size'))
+        else:
+            c.call((dm, cmd))
+        c.ensure('deck-not-started-refused-without-transmission', "raised == 'Exception' and len(trace) == 0")
+    return k
+
+
+for _cmd in ('reset_to_fw', 'reset_to_bootloader', 'set_fw_new_flash_size'):
+    _deck_command(_cmd)
+
+
+@contract('C06', 'deck.disconnect-clears-pending', [DMM + '.disconnect', DMM + '.query_decks', DMM + '._read', DMM + '._write'],
+          clause='afterwards further requests are still served, no pending-request record is left behind: DeckMemoryManager.disconnect (called when '
+                 'the memories are enumerated again) with a query, a read and a write in flight forgets all three - new ones are accepted and no '
+                 'callback of the old ones fires')
+def deck_disconnect(c):
+    memh = c.ext('memh', returns={'read': True, 'write': True})
+    mgr = c.new(DMM, 7, 0x19, 0x10000, memh)
+    c.let('mgr', mgr)
+    c.int('base', 0x10000000, 2 ** 31), c.int('address', 0, 0x0FFFFFFF)
+    dm = c.new(DMC, mgr, 0x1100)
+    c.set(dm, '_base_address', c.get('base'))
+    c.set(dm, '_bit_field1', 1 | 2 | 4 | 8)
+    c.set(mgr, 'deck_memories', c.dict([(0, dm)]))
+    old = c.ext('old_cb')
+    c.call((mgr, 'query_decks'), old, old)
+    c.require('raised is None')
+    c.call((dm, 'read'), c.get('address'), 4, old, old)
+    c.require('raised is None')
+    c.call((dm, 'write'), c.get('address'), c.bytes('wdata', 4), old, old)
+    c.require('raised is None')
+    c.reset_trace()
+    c.call((mgr, 'disconnect'))
+    c.ensure('disconnect-silent', 'raised is None and len(trace) == 0 and len(mgr.deck_memories) == 0')
+    new = c.ext('new_cb')
+    c.call((mgr, 'query_decks'), new, new)
+    c.ensure('next-query-served', "raised is None and len(sent('memh.read')) == 1")
+    c.call((dm, 'read'), c.get('address'), 4, new, new)
+    c.ensure('next-read-served', "raised is None and len(sent('memh.read')) == 2")
+    c.call((dm, 'write'), c.get('address'), c.get('wdata'), new, new)
+    c.ensure('next-write-served', "raised is None and len(sent('memh.write')) == 1")
+    c.ensure('old-callbacks-never-fire', "len(sent('old_cb')) == 0")
+
+
+@contract('C06', 'deck.write-notification-names-the-request', [DMC + '.write', DMM + '._write', DMM + '._write_done', DMM + '._write_failed'], thorough_only=True,
+          clause='the success / failure notification of a deck-memory write names the request: it carries the deck-relative address that was '
+                 'written (as the read notification does), whatever was read before')
+def deck_write_address(c):
+    memh = c.ext('memh', returns={'read': True, 'write': True})
+    mgr = c.new(DMM, 7, 0x19, 0x10000, memh)
+    c.int('base', 0x10000000, 2 ** 31), c.int('address', 0, 0x0FFFFFFF)
+    dm = c.new(DMC, mgr, 0x1100)
+    c.set(dm, '_base_address', c.get('base'))
+    c.set(dm, '_bit_field1', 1 | 2 | 4 | 8)
+    c.let('mgr', mgr), c.let('dm', dm)
+    outcome = c.choice('outcome', ['done', 'failed'])
+    ok, bad = c.ext('write_ok'), c.ext('write_failed')
+    c.call((dm, 'write'), c.get('address'), c.bytes('wdata', 4), ok, bad)
+    c.require('raised is None')
+    c.reset_trace()
+    c.call((mgr, '_write_done' if outcome == 'done' else '_write_failed'), mgr, c.snapshot('mapped', 'base + address'))
+    c.ensure('notified-once', "raised is None and len(trace) == 1")
+    c.ensure('notification-carries-the-deck-relative-address', "trace[0][1] == (address,)")
+
+
+# --------------------------------------------------------------------------------------- deck memory end to end (real Memory, enumerated manager)
+
+def deck_memory_of(c, mgr, name='dm'):
+    dm = c.new(DMC, mgr, 0x1100)
+    c.set(dm, '_base_address', c.get('base'))
+    c.set(dm, '_bit_field1', 1 | 2 | 4 | 8)
+    c.let(name, dm)
+    return dm
+
+
+def _deck_e2e(event):
+    @contract('C06', 'deck.end-to-end.%s' % event, READ_F + WRITE_F + ENUM_F + DROP_F + [DMC + '.read', DMC + '.write', DMM + '._read', DMM + '._write', DMM + '._new_data',
+                                                                                          DMM + '._new_data_failed', DMM + '._write_done', DMM + '._write_failed'],
+              clause='deck-memory reads and writes through the enumerated manager and the real Memory: the write reaches the device completely at '
+                     'base + address (two chunks), the read returns exactly the device bytes under the deck-relative address; each completes with '
+                     'exactly one success - or, on an error status / link drop, failure - notification; afterwards the next deck request is served',
+              bounded='one write of 26 bytes and one read of 21 bytes in flight together; base, address, contents symbolic', max_paths=100)
+    def k(c):
+        memh = enumerated(c)
+        c.let('mid', 1)
+        c.int('base', 0x10000000, 2 ** 31), c.int('address', 0, 0x0FFFFFF0)
+        c.snapshot('mapped', 'base + address')
+        dm = deck_memory_of(c, c.get('deck'))
+        d = c.bytes('d', 26)
+        c.bytes('M', 21)
+        im = {}
+        w_ok, w_bad, r_ok, r_bad = c.ext('w_ok'), c.ext('w_bad'), c.ext('r_ok'), c.ext('r_bad')
+        c.call((dm, 'write'), c.get('address'), d, w_ok, w_bad)
+        c.ensure('write-accepted', "raised is None and len(sent('cf.send_packet')) == 1")
+        c.call((dm, 'read'), c.get('address'), 21, r_ok, r_bad)
+        c.ensure('read-accepted', "raised is None and len(sent('cf.send_packet')) == 2")
+        if n_sent(c) != 2:
+            return
+        if event == 'success':
+            ack_write(c, memh, 0, 'mapped', 26, im)
+            answer_read(c, memh, 1, 'mapped', 'M', 21)
+            step = 2
+            while n_sent(c) > step and step < 8:
+                c.snapshot('pkx', "sent('cf.send_packet')[%d][1][0]" % step)
+                if c.concretize('pkx.channel') == 2:
+                    ack_write(c, memh, step, 'mapped', 26, im)
+                else:
+                    answer_read(c, memh, step, 'mapped', 'M', 21)
+                step += 1
+            c.snapshot('trace', 'trace')
+            c.ensure('write-completes-once', "len(sent('w_ok')) == 1 and len(sent('w_bad')) == 0")
+            c.ensure('every-byte-written-at-base-plus-address', image_equals(im, 26, 'd'))
+            c.ensure('read-completes-once-with-the-device-bytes-under-the-relative-address',
+                     "len(sent('r_ok')) == 1 and len(sent('r_bad')) == 0 and sent('r_ok')[0][1][0] == address and bytes(sent('r_ok')[0][1][1]) == M")
+        elif event == 'error':
+            c.int('status', 1, 255)
+            c.snapshot('wq', "sent('cf.send_packet')[0][1][0]"), c.snapshot('rq', "sent('cf.send_packet')[1][1][0]")
+            c.snapshot('rdata', 'bytes(wq.data[0:5]) + bytes([status])')
+            c.call((memh, '_new_packet_cb'), c.new(STK + ':CRTPPacket', (4 << 4) | 2, c.get('rdata')))
+            c.ensure('write-error-handled', 'raised is None')
+            c.snapshot('rdata', 'bytes(rq.data[0:5]) + bytes([status])')
+            c.call((memh, '_new_packet_cb'), c.new(STK + ':CRTPPacket', (4 << 4) | 1, c.get('rdata')))
+            c.ensure('read-error-handled', 'raised is None')
+            c.snapshot('trace', 'trace')
+            c.ensure('write-fails-once', "len(sent('w_bad')) == 1 and len(sent('w_ok')) == 0")
+            c.ensure('read-fails-once-under-the-relative-address', "len(sent('r_bad')) == 1 and len(sent('r_ok')) == 0 and sent('r_bad')[0][1] == (address,)")
+        else:
+            c.call((memh, '_disconnected'), 'radio://0/1')
+            c.ensure('drop-handled', 'raised is None')
+            c.ensure('write-fails-once', "len(sent('w_bad')) == 1 and len(sent('w_ok')) == 0")
+            c.ensure('read-fails-once-under-the-relative-address', "len(sent('r_bad')) == 1 and len(sent('r_ok')) == 0 and sent('r_bad')[0][1] == (address,)")
+        c.ensure('no-lock-or-record-left', 'len(memh._read_requests) == 0 and all(len(v) == 0 for v in memh._write_requests.values()) '
+                                           'and not memh._write_requests_lock.locked()')
+        c.reset_trace()
+        c.call((dm, 'write'), c.get('address'), d, w_ok, w_bad)
+        c.ensure('next-deck-write-served', "raised is None and len(sent('cf.send_packet')) == 1")
+        c.call((dm, 'read'), c.get('address'), 2, r_ok, r_bad)
+        c.ensure('next-deck-read-served', "raised is None and len(sent('cf.send_packet')) == 2")
+    return k
+
+
+for _e in ('success', 'error', 'drop'):
+    _deck_e2e(_e)
+
+
+@contract('C06', 'enumeration.second-refresh-then-deck-read', READ_F + ENUM_F + [DMC + '.read', DMM + '._read', DMM + '._new_data', DMM + '.disconnect'], thorough_only=True,
+          clause='never wedge the subsystem / state surviving a second use: after the memories have been enumerated AGAIN on the same connection '
+                 '(Memory.refresh called a second time) a deck-memory read through the new manager completes with exactly one notification carrying '
+                 'the device bytes, without exception, and the next read is served')
+def second_refresh(c):
+    memh = enumerated(c)
+    enumerate_mems(c, memh, '2')
+    c.let('mid', 1)
+    c.ensure('one-object-per-reported-memory', 'len(memh.mems) == 2')
+    c.int('base', 0x10000000, 2 ** 31), c.int('address', 0, 0x0FFFFFF0)
+    c.snapshot('mapped', 'base + address')
+    dm = deck_memory_of(c, c.get('deck'))
+    c.bytes('M', 2)
+    r_ok, r_bad = c.ext('r_ok'), c.ext('r_bad')
+    c.call((dm, 'read'), c.get('address'), 2, r_ok, r_bad)
+    c.ensure('read-accepted', "raised is None and len(sent('cf.send_packet')) == 1")
+    if n_sent(c) != 1:
+        return
+    answer_read(c, memh, 0, 'mapped', 'M', 2)
+    c.ensure('read-completes-once-with-the-device-bytes', "len(sent('r_ok')) == 1 and len(sent('r_bad')) == 0 and bytes(sent('r_ok')[0][1][1]) == M")
+    c.call((dm, 'read'), c.get('address'), 2, r_ok, r_bad)
+    c.ensure('next-deck-read-served', 'raised is None')
+
+
+# --------------------------------------------------------------------------------------- error exit: a request the library itself rejects
+
+@contract('C06', 'invalid-request.leaves-nothing-behind', [MEM + ':Memory.read', MEM + ':Memory.write'], thorough_only=True,
+          clause='never wedge the subsystem: no lock or pending-request record is left behind and further requests are still served - also after a '
+                 'request that ends with an exception because it cannot be encoded (address beyond the 32-bit address space, content that is not a byte)',
+          bounded='one rejected request (three kinds), then one valid request of each direction to the same memory')
+def invalid_request(c):
+    memh, mem = setup(c)
+    kind = c.choice('kind', ['write-address-out-of-range', 'write-content-not-a-byte', 'read-address-out-of-range'])
+    c.int('bad_addr', 2 ** 32, 2 ** 33), c.int('bad_byte', 256, 1000)
+    if kind == 'write-address-out-of-range':
+        c.call((memh, 'write'), mem, c.get('bad_addr'), (1, 2))
+    elif kind == 'write-content-not-a-byte':
+        c.call((memh, 'write'), mem, 0, (1, c.get('bad_byte')))
+    else:
+        c.call((memh, 'read'), mem, c.get('bad_addr'), 4)
+    c.ensure('rejected-with-an-exception-nothing-transmitted', "raised == 'struct.error' and len(sent('cf.send_packet')) == 0")
+    quiescent(c)
+    c.reset_trace()
+    c.call((memh, 'read'), mem, 0, 4)
+    c.ensure('next-read-served', "raised is None and result is True and len(sent('cf.send_packet')) == 1")
+    if not c.concretize('memh._write_requests_lock.locked()'):
+        c.reset_trace()
+        c.call((memh, 'write'), mem, 0, (1, 2))
+        c.ensure('next-write-transmitted', "raised is None and len(sent('cf.send_packet')) == 1")
+
+
+@contract('C06', 'tester.foreign-completions-ignored', TEST_F + READ_F + WRITE_F + ENUM_F,
+          clause='exactly one notification per request: the completion of a read / write of ANOTHER memory is not reported as the completion of the '
+                 "memory tester's pending read / write, and does not consume it - its own completion is still reported once",
+          bounded='one tester write (1 byte) and one tester read (2 bytes) pending while a write and a read of memory id 2 complete')
+def tester_foreign(c):
+    memh = enumerated(c)
+    tester = c.get('tester')
+    other = c.new(ELT, 2, 0x18, 0x100, memh)
+    c.int('start', 0, 2 ** 32 - 10), c.int('oaddr', 0, 2 ** 32 - 10)
+    c.bytes('M', 2), c.bytes('MO', 2)
+    c.require('M[0] == start & 0xff and M[1] == (start + 1) & 0xff')
+    wcb, rcb = c.ext('write_finished'), c.ext('read_finished')
+    c.call((tester, 'write_data'), c.get('start'), 1, wcb)
+    c.require('raised is None')
+    c.call((tester, 'read_data'), c.get('start'), 2, rcb)
+    c.require('raised is None')
+    c.call((memh, 'write'), other, c.get('oaddr'), (9,))
+    c.require('raised is None')
+    c.call((memh, 'read'), other, c.get('oaddr'), 2)
+    c.require("raised is None and len(sent('cf.send_packet')) == 4")
+    ack_write(c, memh, 2, 'oaddr', 1, {}, midx='2')
+    answer_read(c, memh, 3, 'oaddr', 'MO', 2, midx='2')
+    c.ensure('foreign-completions-notified-at-memory-level-only', "len(sent('note_write')) == 1 and len(sent('note_read')) == 1 and "
+             "len(sent('write_finished')) == 0 and len(sent('read_finished')) == 0")
+    ack_write(c, memh, 0, 'start', 1, {})
+    answer_read(c, memh, 1, 'start', 'M', 2)
+    c.ensure('own-completions-reported-once', "len(sent('write_finished')) == 1 and len(sent('read_finished')) == 1 and tester.readValidationSucess is True")
+    quiescent(c)
+
+
+@contract('C06', 'enumeration.one-wire-updates-complete-once', [MEM + ':Memory._mem_update_done'],
+          clause='the enumeration completes with exactly one notification: with 1-wire memories still reading their headers the completion is '
+                 'reported exactly when the last of them reports done - not before, not twice (a duplicated done report is ignored)')
+def ow_updates(c):
+    cf = c.ext('cf')
+    memh = c.new(MEM + ':Memory', cf)
+    c.let('memh', memh)
+    c.int('ia', 0, 255), c.int('ib', 0, 255)
+    c.require('ia != ib')
+    a, b = c.ext('ow_a', attrs={'id': c.get('ia')}), c.ext('ow_b', attrs={'id': c.get('ib')})
+    done = c.ext('refresh_done')
+    c.set(memh, '_refresh_callback', done)
+    c.set(memh, '_ow_mems_left_to_update', c.list([c.get('ia'), c.get('ib')]))
+    c.reset_trace()
+    c.call((memh, '_mem_update_done'), a)
+    c.ensure('not-before-the-last', "raised is None and len(sent('refresh_done')) == 0")
+    c.call((memh, '_mem_update_done'), a)
+    c.ensure('duplicate-report-ignored', "raised is None and len(sent('refresh_done')) == 0")
+    c.call((memh, '_mem_update_done'), b)
+    c.ensure('reported-once-at-the-last', "raised is None and len(sent('refresh_done')) == 1")
+    c.call((memh, '_mem_update_done'), b)
+    c.ensure('not-twice', "raised is None and len(sent('refresh_done')) == 1")
+
+
+@contract('C06', 'write.queued.three', WRITE_F,
+          clause='queued writes to one memory are performed in order and none is superseded unless asked for: three plain writes (no flush_queue) '
+                 'issued back to back are all performed, one after the other in the order issued, each completely and each with exactly one notification',
+          bounded='three writes of 30 (two chunks), 3 and 4 bytes to one memory; addresses, memory id and contents symbolic')
+def queued_three(c):
+    memh, mem = setup(c)
+    c.int('addr', 0, 1000), c.int('addr2', 2000, 3000), c.int('addr3', 4000, 5000)
+    d1 = c.ints('d1', 30, 0, 255, kind='tuple')
+    d2 = c.ints('d2', 3, 0, 255, kind='tuple')
+    d3 = c.ints('d3', 4, 0, 255, kind='tuple')
+    for a, d in (('addr', d1), ('addr2', d2), ('addr3', d3)):
+        c.call((memh, 'write'), mem, c.get(a), d)
+        c.ensure('accepted-and-only-the-first-transmitted', "raised is None and result is True and len(sent('cf.send_packet')) == 1")
+    order, images = serve_writes(c, memh, [('addr', 30), ('addr2', 3), ('addr3', 4)])
+    c.let('order', tuple(order))
+    c.ensure('performed-in-the-order-issued', 'order == (0, 0, 1, 2)')
+    c.ensure('one-notification-each-in-order', "%s == (addr, addr2, addr3) and len(sent('note_write_failed')) == 0" % note_addrs(c, 'note_write'))
+    c.ensure('every-write-reached-the-device-completely', ' and '.join([image_equals(images[0], 30, 'd1'), image_equals(images[1], 3, 'd2'), image_equals(images[2], 4, 'd3')]))
+    quiescent(c)
+
+
+@contract('C06', 'deck.sync-blocks-until-complete', [DMC + '.write_sync', DMC + '.read_sync', DMC + '._write_command_data', DMC + '.reset_to_fw'],
+          clause='the blocking deck-memory calls report the outcome of the request, so they do not return before it has completed: while no success or '
+                 'failure notification has been raised the caller keeps waiting (in the sequential model: the call ends in the pseudo exception '
+                 'Deadlock instead of returning a verdict about a request that is still in flight)',
+          bounded='the peer never answers; Event of cflib.utils.callbacks replaced by the sequential event model in both back ends')
+def deck_sync_blocks(c):
+    n = []
+
+    def make_event(_i, _a, _k):
+        n.append(1)
+        return c.event('syncer_event%d' % len(n))
+    c.patch('cflib.utils.callbacks:Event', c.ext('Event', returns={'()': make_event}))
+    memh, mgr, dm = deck_with_peer(c, lambda _w: 'never')
+    op = c.choice('operation', ['write_sync', 'read_sync', 'reset_to_fw'])
+    if op == 'write_sync':
+        c.call((dm, op), c.get('address'), c.bytes('wdata', 3))
+    elif op == 'read_sync':
+        c.call((dm, op), c.get('address'), 3)
+    else:
+        c.call((dm, op))
+    c.ensure('request-made-and-caller-still-waiting', "raised == 'Deadlock' and len(sent('memh.write')) + len(sent('memh.read')) == 1")
+
+
+SDM = DM + ':SyncDeckMemoryManager'
+
+
+@contract('C06', 'deck.sync-query', [SDM + '.__init__', SDM + '.query_decks', DMM + '.query_decks', DMM + '._new_data', DMM + '._parse_info_section', DMC + '._parse'],
+          clause='the blocking deck query is a read of the info section (address 0, whole section) that returns what the device holds there: the deck '
+                 'memories described by the bytes delivered (base address, name, flags), or an error when the section has an unsupported version; '
+                 'either way nothing stays pending - the next query is served',
+          bounded='info section with one valid deck entry (index 0); version, hash, length and base address symbolic')
+def deck_sync_query(c):
+    memh, mgr, dm = deck_with_peer(c, lambda _w: 'done')
+    c.int('version', 0, 255), c.int('h', 0, 2 ** 32 - 1), c.int('l', 0, 2 ** 32 - 1)
+    supported = c.choice('version_supported', [True, False])
+    c.require('version == 3' if supported else 'version != 3')
+    c.let('rdata_dev', c.snapshot('info', "bytes([version]) + bytes([15, 0]) + pack('<LLL', h, l, base) + b'lighthouse' + bytes(8) + bytes(32 * 7)"))
+    sync = c.new(SDM, mgr)
+    for rnd in (1, 2):
+        c.reset_trace()
+        c.call((sync, 'query_decks'))
+        c.ensure('whole-info-section-read-at-address-0', "len(sent('memh.read')) == 1 and sent('memh.read')[0][1] == (mgr, 0, 1 + 8 * 32)")
+        if supported:
+            c.ensure('returns-the-decks-the-device-describes', "raised is None and len(result) == 1 and result[0]._base_address == base and result[0].name == 'lighthouse' "
+                     "and result[0].required_hash == h and result[0].required_length == l and result[0].is_started and result[0].supports_read and result[0].supports_write")
+        else:
+            c.ensure('unsupported-version-reported', "raised == 'RuntimeError'")
+
+
+@contract('C06', 'deck.query-failure-notified', [DMM + '.query_decks', DMM + '._new_data_failed'], thorough_only=True,
+          clause='every read request completes with exactly one success or failure notification, also when the reply reports an error or the link '
+                 'drops: a deck query (read of the info section) that fails raises the failure callback once - a blocking query must not wait for ever')
+def deck_query_failure(c):
+    memh = c.ext('memh', returns={'read': True, 'write': True})
+    mgr = c.new(DMM, 7, 0x19, 0x10000, memh)
+    c.let('mgr', mgr)
+    ok, bad = c.ext('query_ok'), c.ext('query_failed')
+    c.call((mgr, 'query_decks'), ok, bad)
+    c.require('raised is None')
+    c.reset_trace()
+    c.call((mgr, '_new_data_failed'), mgr, 0, c.bytes('partial', 2))
+    c.ensure('failure-notified-once', "raised is None and calls() == ('query_failed',)")
+    c.call((mgr, 'query_decks'), ok, bad)
+    c.ensure('next-query-served', "raised is None and len(sent('memh.read')) == 1")
+
+
+@contract('C06', 'tester.disconnect-clears-pending', TEST_F + READ_F + WRITE_F + ENUM_F,
+          clause='no pending-request record is left behind: MemoryTester.disconnect (called when the memories are enumerated again) with a read and a '
+                 'write pending forgets both - completions arriving afterwards are not reported to the old callbacks, and new requests are served '
+                 'and reported once',
+          bounded='one read of 2 bytes and one write of 1 byte pending at the disconnect')
+def tester_disconnect(c):
+    memh = enumerated(c)
+    tester = c.get('tester')
+    c.int('start', 0, 2 ** 32 - 10)
+    c.bytes('M', 2)
+    old = c.ext('old_cb')
+    c.call((tester, 'read_data'), c.get('start'), 2, old)
+    c.require('raised is None')
+    c.call((tester, 'write_data'), c.get('start'), 1, old)
+    c.require("raised is None and len(sent('cf.send_packet')) == 2")
+    c.call((tester, 'disconnect'))
+    c.ensure('disconnect-silent', "raised is None and len(sent('old_cb')) == 0")
+    answer_read(c, memh, 0, 'start', 'M', 2)
+    ack_write(c, memh, 1, 'start', 1, {})
+    c.ensure('old-callbacks-never-fire', "len(sent('old_cb')) == 0 and len(sent('note_read')) == 1 and len(sent('note_write')) == 1")
+    quiescent(c)
+    new_r, new_w = c.ext('new_read_cb'), c.ext('new_write_cb')
+    c.reset_trace()
+    c.call((tester, 'read_data'), c.get('start'), 2, new_r)
+    c.ensure('next-read-served', "raised is None and len(sent('cf.send_packet')) == 1")
+    c.call((tester, 'write_data'), c.get('start'), 1, new_w)
+    c.ensure('next-write-served', "raised is None and len(sent('cf.send_packet')) == 2")
+    if n_sent(c) == 2:
+        answer_read(c, memh, 0, 'start', 'M', 2, tag='@new-read')
+        ack_write(c, memh, 1, 'start', 1, {}, tag='@new-write')
+        c.ensure('new-requests-reported-once', "len(sent('new_read_cb')) == 1 and len(sent('new_write_cb')) == 1 and len(sent('old_cb')) == 0")
